@@ -238,6 +238,10 @@ def sum_fn(E, cfg):
     E.check(_ref(s2) == _ref(s), 'sum-fn-start-value')
     E.check(quantity.sum([]) == 0, 'sum-fn-empty')
     E.check(quantity.sum([qa]) is qa, 'sum-fn-single')
+    from decimalfp import Decimal
+    for label, start in (('int0', 0), ('float0', 0.0), ('Decimal0', Decimal(0)), ('Fraction0', Fraction(0)), ('False', False),
+                         ('int5', 5)):
+        _expect_raises(E, lambda: quantity.sum([qa, qb], start), TypeError, 'sum-fn-number-start-raises-' + label, [us, vs])
     try:
         r = sum([qa, qb])          # builtin sum starts with int 0
     except TypeError:
